@@ -63,8 +63,10 @@ def parse_file(path: Path) -> Union[pymoca.ast.Tree, None]:
             log.error('Syntax error in file "%s"', path)
         elif log.level == logging.DEBUG:
             log.debug(json.dumps(ast.to_json(ast), indent=2))
-    # KeyError and AttributeError are problems in ASTListener
-    except (KeyError, AttributeError, OSError):
+    # Whatever goes wrong with one file (e.g. KeyError and AttributeError are
+    # problems in ASTListener, UnicodeDecodeError a wrong encoding), the other
+    # files still have to be processed and this one counted as failed
+    except Exception:  # pylint: disable=broad-except
         if log.level in (logging.DEBUG, logging.INFO):
             log.exception('Parse error in file "%s"', path)
         else:
